@@ -162,6 +162,8 @@ def encodeFrame (img : ImgHdr) (p : FramePlan) : Option FrameOut :=
               let clusters := leafCtxIndex p.tree
               -- LfGlobal: lf_dequant.all_default, global tree present, MaConfig, ModularHeader, data
               let w : BW := #[]
+              let w := if f.patches.isEmpty then w
+                else w.bits (patchBits (img.ecs.filter (·.ty == 0)).length f.patches)
               let w := (w.bool true).bool true
               -- LZ77 distance multiplier of a sub-bitstream: its widest channel (meta channels included)
               let multOf := fun (chs : List (ChanInfo × Chan)) => chs.foldl (fun m c => max m c.1.w) 0
